@@ -1,6 +1,6 @@
 INIT ScenInit
 NEXT ScenNext
 CONSTANTS
-  Sizes = {1, 2, 50, 128, 1000, 1024, 3840, 12345}
+  Sizes = {1, 2, 50, 128, 1000, 1024, 3840, 8192, 12345, 24576}
 INVARIANT EmitScen
 CHECK_DEADLOCK FALSE
